@@ -570,7 +570,9 @@ func runCase(b *batch, idx int, spec caseSpec) *caseResult {
 	// allServedDone: every connection Serve accepted so far has been served and finished.
 	allServedDone := func() bool {
 		for _, c := range pm.conns {
-			if c.serveRes.Load() == 1 && !(c.started.Load() >= 1 && c.ended.Load() >= 1 && c.finished()) {
+			// (the terminal connState call comes after Close: wait for it too, so that the per-connection verdict
+			// cannot be taken between the two)
+			if c.serveRes.Load() == 1 && !(c.started.Load() >= 1 && c.ended.Load() >= 1 && c.finished() && (c.stClosed.Load() > 0 || c.stHijacked.Load() > 0)) {
 				return false
 			}
 		}
@@ -839,8 +841,8 @@ func bucket(n int) string {
 func TestC13(t *testing.T) {
 	r := mon.Start(t, "C13")
 	defer r.Finish()
-	r.Rule("case = one life of a real workerPool (MaxWorkersCount 1-3, MaxIdleWorkerDuration 5-20ms) driven like Server.Serve does: Start, a seeded script of Serve calls (1-26 fake conns with unique ids; WorkerFunc holds each instantly/yields/sleeps/until a harness gate and returns nil/error/errHijacked), pauses, gate releases and wait-for-idle-retirement steps from ONE goroutine, then Stop from that goroutine with none/some/all busy workers released, the rest released afterwards; 32 such pools run concurrently under one seeded sched.Perturber per batch (yields/sleeps at wp.* hook points, delays inside Close and connState). distinct = feature vector (max workers, conn-count bucket, rejected/hijack/error/busy-at-Stop buckets, idle wait done, peak concurrency reached Max); non-trivial = a connection was rejected, hijacked, or still being served when Stop was called, or an idle retirement was awaited")
-	r.Assume("Start/Serve/Stop are called from one goroutine and a stopped pool is never restarted (Server.Serve builds a new pool per call; Start/Stop touch stopCh without a lock and mustStop is never reset), so Stop racing a *concurrent* Serve call and Start-after-Stop are caller misuse and not exercised; Stop racing worker completion, release, clean and worker exit is")
+	r.Rule("case = one life of a real workerPool (MaxWorkersCount 1-3, MaxIdleWorkerDuration 5-20ms) driven like Server.Serve does: Start, a seeded script of Serve calls (1-26 fake conns with unique ids; WorkerFunc holds each instantly/yields/sleeps/until a harness gate and returns nil/error/errHijacked), pauses, gate releases and wait-for-idle-retirement steps from ONE goroutine, in a third of the cases one or two restarts of the same pool object (Stop, once or twice, then Start, with none/some/all busy workers released before) between the Serve calls, then Stop from that goroutine with none/some/all busy workers released (a quarter of the cases: Stop fired while the cleaner is parked by the wp.clean.unlocked hook between compacting ready and notifying the obsolete workers, some with 8-32 workers), the rest released afterwards; 32 such pools run concurrently under one seeded sched.Perturber per batch (yields/sleeps at wp.* hook points, delays inside Close and connState). distinct = feature vector (max workers, conn-count bucket, rejected/hijack/error/busy-at-Stop buckets, idle wait done, peak concurrency reached Max); non-trivial = a connection was rejected, hijacked, or still being served when Stop was called, or an idle retirement was awaited")
+	r.Assume("Start/Serve/Stop are all called from one goroutine (stopCh is touched without a lock), so Stop racing a *concurrent* Serve call is caller misuse and not exercised; Stop racing worker completion, release, clean and worker exit is, and so is restarting the same pool object (Stop, possibly twice, then Start) from that goroutine while workers of the first life are still busy; after a re-Start the ready list is not judged against the earlier Stop")
 	r.Assume("gauges are lower bounds: WorkerFunc gauge is bumped inside WorkerFunc; the accepted-unfinished gauge is bumped only after Serve returned true and dropped when Close/connState(StateHijacked) returns, both inside the worker's hold of the connection")
 	r.Assume("bounded liveness: workers must be gone within 10 s (>= 500x MaxIdleWorkerDuration) once nothing is served; harness quiescence (every accepted conn finished) is polled with a 20 s cap whose firing is inconclusive unless Counts().workers==0 proves the connection can no longer be served")
 	r.Assume("goroutine identity (parsed from runtime.Stack) links the wp.release.enter hook to the connection that goroutine served last")
@@ -1001,7 +1003,7 @@ func TestC13(t *testing.T) {
 		r.Require("restarts_with_busy_workers", n/20)
 		r.Require("serve_true_after_restart_while_survivors_busy", n/40)
 		r.Require("double_stops", n/10)
-		r.Require("stops_with_cleaner_parked_after_compaction", n/10)
+		r.Require("stops_with_cleaner_parked_after_compaction", n/20)
 		r.Require("pools_stopped_and_drained", n)
 		r.Require("counts_samples", n*5)
 		r.Require("cases_peak_workerfunc_eq_max", n/20)
